@@ -208,6 +208,11 @@ def run(pid, fn, argv):
         print("ANALYSIS-BROKEN property=%s: %s" % (pid, e), file=sys.stderr)
         print("ANALYSIS-BROKEN property=%s: %s" % (pid, str(e).splitlines()[0] if str(e) else ""))
         return 2
+    except Exception as e:  # a bug in the rule engine is never a verdict
+        import traceback
+        traceback.print_exc()
+        print("ANALYSIS-BROKEN property=%s: internal error in the rule engine: %r" % (pid, e))
+        return 2
 
 
 def self_pid(chk):
